@@ -99,7 +99,7 @@ class LevyMeasure:
     def integrate_against_xn(self, a: float, b: float, n: int):
         """Integrate :math:`x^n nu(dx)` between x=a and x=b"""
         if n == 0:
-            return self.integrate(a=a, b=a)
+            return self.integrate(a=a, b=b)
         if n == 1:
             return self.integrate_against_x(a=a, b=b)
         if n == 2:
